@@ -12,11 +12,13 @@ class C40(vlib.Spec):
     theorems = ["C40_raft_term_monotone", "C40_raft_vote_once_per_term", "C40_raft_commit_monotone",
                 "C40_raft_election_safety", "C40_raft_leader_append_only", "C40_raft_sms_partial", "C40_raft_log_wf",
                 "C40_raft_committed_prefix_stable", "C40_raft_leader_commit_rule", "C40_raft_log_matching",
-                "C40_raft_sms_from_leader_completeness", "C40_raft_vote_restriction", "C40_raft_log_terms_monotone", "C40_paxos_safety",
-                "C40_paxos_recommit_obeys_pick"]
+                "C40_raft_sms_from_leader_completeness", "C40_raft_vote_restriction", "C40_raft_log_terms_monotone",
+                "C40_raft_lc_from_vote_invariant", "C40_raft_invariants_step", "C40_raft_invariants_reachable",
+                "C40_raft_leader_completeness", "C40_raft_commit_sound", "C40_raft_sms_all",
+                "C40_paxos_safety", "C40_paxos_recommit_obeys_pick"]
     crate, group, binary = "h_raft", "hydro", "h_raft"
     imports = "From HV Require Import Proto.RaftNet.\nFrom HV Require Proto.PaxosCheck."
-    level = "other"
+    level = "proof"
     trusted_base = ["coqc 8.16.1 kernel (vm_compute used for case evaluation only)",
                     "hand transcription of hydro_test/src/cluster/raft.rs raft_step into coq/theories/Proto/RaftModel.v",
                     "network transition system coq/theories/Proto/RaftNet.v (any delay/reorder/duplication/loss, fail-stop crash)",
@@ -35,17 +37,23 @@ class C40(vlib.Spec):
             "step cases: arbitrary (partly ill-formed) states and message batches incl. panicking ones; "
             "non-trivial = cluster run that elected a leader and committed an entry, or a step with >=1 message/timer")
     explanation = (
-        "Partial proof + correspondence. Proved in Coq for ALL executions of the network model over the transcribed "
-        "raft_step: term monotone, voted_for changes at most once per term, commit index monotone, Election Safety "
-        "(<=1 leader per term, quorum intersection), Leader Append-Only, log well-formedness, and stability of each "
-        "member's own committed prefix (the a=b diagonal of SMS) (see theorems). "
-        "State Machine Safety (C40_raft_sms) is stated in full but not proved; Log Matching is proved (per-term ghost leader logs), and so is the reduction "
-        "'SMS follows from Leader Completeness' (C40_raft_sms_from_leader_completeness); missing: Leader Completeness itself (LCstar); supporting lemmas proved: vote restriction, log terms "
-        "non-decreasing and bounded by the current term. "
+        "Raft: State Machine Safety is PROVED IN FULL in Coq (C40_raft_sms_all: forall n, C40_raft_sms n) for all "
+        "executions of the asynchronous fail-stop network model (any delay/reordering/duplication/loss, crashes, any "
+        "timer firings and client requests) over the field-by-field transcription of raft_step, for every cluster size. "
+        "Route: ghost-instrumented system (all messages ever sent, votes cast, elected pairs, per-term leader logs); "
+        "Election Safety (quorum intersection), Log Matching, sorted/bounded log terms, the election restriction, "
+        "persistence of acknowledged prefixes, the vote invariants V4/V3/VInvS, Leader Completeness "
+        "(C40_raft_leader_completeness: what a majority holds in term t is in every later leader's log; strong "
+        "induction over elected terms) and commit soundness (C40_raft_commit_sound); ten invariants preserved by every "
+        "step (C40_raft_invariants_step). The round-2 formulation LCstar turned out stronger than what Raft guarantees "
+        "and is not used. "
         "Every run additionally compares the real raft_step field by field with the model on generated calls and "
-        "evaluates election safety / log matching / SMS on whole cluster runs executed with the real raft_step. "
-        "Paxos: abstract multi-Paxos safety (one value per slot) is proved (C40_paxos_safety); the code tie is "
-        "component-level (recommit_after_leader_election, index_payloads), the full Hydro Paxos program is not run.")
+        "evaluates election safety / log matching / SMS on whole cluster runs executed with the real raft_step "
+        "(this generator caught a seeded change that swapped the up-to-date comparison of the vote restriction). "
+        "REMAINING GAP (Paxos): abstract multi-Paxos safety (one value per slot) is proved (C40_paxos_safety), but the "
+        "tie to paxos.rs is component-level only (recommit_after_leader_election, index_payloads run through the "
+        "embedded code generator and checked against the abstract rule; C40_paxos_recommit_obeys_pick); the full Hydro "
+        "Paxos program is neither modelled nor run. Also not modelled: the Hydro dataflow wiring around raft_step.")
 
     def gen(self, rng, tier, n):
         cases = []
